@@ -1,14 +1,96 @@
+// Command conform binds pgeval to real PostgreSQL behaviour: every non-updating case of the DAWGS integration corpus
+// (expectations the maintainers verify against live PostgreSQL and Neo4j) is parsed, translated, evaluated by pgeval on
+// the case's fixture, and the recorded assertion is checked. A mismatch means pgeval is wrong.
+//
+//	conform              print the conformance table (exit 1 on any mismatch)
+//	conform -v           also list every outside case
+//	conform -case substr only cases whose name contains substr; prints SQL and rows
+//	conform -inventory   print the construct inventory of all golden + integration translations
 package main
 
 import (
 	"flag"
+	"fmt"
+	"os"
+	"strings"
+
+	"verif/gm"
+	"verif/icorpus"
+	"verif/pgeval"
+	"verif/pgeval/pgconform"
 )
 
 func main() {
 	inv := flag.Bool("inventory", false, "print the construct inventory of all golden + integration translations")
+	verbose := flag.Bool("v", false, "list outside cases")
+	only := flag.String("case", "", "only cases whose name contains this text (prints SQL and rows)")
+	gold := flag.Bool("golden", false, "run pgeval over every golden translation case on the base dataset (coverage, no expectations)")
 	flag.Parse()
 	if *inv {
 		inventory()
 		return
+	}
+	if *gold {
+		golden(*verbose)
+		return
+	}
+	cases, err := icorpus.Load(icorpus.RepoRoot())
+	if err != nil {
+		fmt.Fprintln(os.Stderr, "conform:", err)
+		os.Exit(2)
+	}
+	kinds := pgconform.CorpusKinds(cases)
+	if *only != "" {
+		var sel []*icorpus.Case
+		for _, c := range cases {
+			if strings.Contains(c.Name, *only) || strings.Contains(c.Cypher, *only) {
+				sel = append(sel, c)
+			}
+		}
+		cases = sel
+	}
+	translatedCount, translateErrors := 0, 0
+	precedence := 0
+	eval := func(c *icorpus.Case) (*gm.Rows, error) {
+		t, err := pgconform.Translate(c, kinds)
+		if err != nil {
+			translateErrors++
+			if *only != "" {
+				fmt.Printf("-- %s\n   cypher: %s\n   translation error: %v\n", c.Name, c.Cypher, err)
+			}
+			return nil, err
+		}
+		translatedCount++
+		ev := pgeval.New(c.Graph, t.KindIDs)
+		rows, err := ev.Run(t.Result.Statement, t.Result.Parameters)
+		if ev.Info.PrecedenceRewrites > 0 {
+			precedence++
+			fmt.Printf("note: %s: %d operator sub-expression(s) parse differently from the AST\n   sql: %s\n", c.Name, ev.Info.PrecedenceRewrites, t.SQL)
+		}
+		if *only != "" {
+			fmt.Printf("-- %s\n   cypher: %s\n   params: %v -> %v\n   sql:    %s\n", c.Name, c.Cypher, c.Params, t.Result.Parameters, t.SQL)
+			if err != nil {
+				fmt.Printf("   error:  %v\n", err)
+			} else {
+				fmt.Printf("   columns: %v  info: %+v\n", rows.Columns, ev.Info)
+				for _, r := range rows.Seq() {
+					fmt.Printf("   row: %s\n", r)
+				}
+			}
+			fmt.Printf("   expect: %s\n", func() string {
+				if c.Assert != nil {
+					return c.Assert.Raw
+				}
+				return "metamorphic"
+			}())
+		}
+		return rows, err
+	}
+	rep := icorpus.RunAll(cases, eval)
+	fmt.Printf("queries translated %d, translation errors %d (counted as query errors), statements whose text parses differently from the AST %d\n",
+		translatedCount, translateErrors, precedence)
+	rep.Print(os.Stdout, "pgeval(translate(query)) on the integration corpus", *verbose)
+	if rep.Mismatch > 0 {
+		os.Exit(1)
 	}
 }
